@@ -110,7 +110,7 @@ Section RecalcMin.
     destruct (is_root_facts _ _ Hr) as [_ Hp].
     assert (Hrn : rn (cur (nd s r))) by (right; apply (wf_root _ _ (c_wf _ (i_core _ (g_inv _ _ Hg)))); assumption).
     destruct (get_aux_spec gt gt_pure now f nobody s r NEVER s1 mn Hg Hrn Ha)
-      as (Hg1 & Hpar & _ & Hv & Hlr & Hagg & _ & Hmn).
+      as (Hg1 & Hpar & _ & Hv & Hlr & Hagg & _ & Hmn & _).
     assert (Hmn' : mn = agg (nd s1 r)).
     { rewrite Hmn. apply N.min_r. apply (c_k6 _ (i_core _ (g_inv _ _ Hg1))). }
     assert (Hs : settled (nd s1) r) by (split; assumption).
